@@ -91,6 +91,21 @@ var handPairs = []handPair{
 		new: map[string]string{"a.thrift": "const list<i64> PRIMES = [2, 3, 5]\nconst map<string, i64> AGES = {\"a\": 1}\nconst map<string, list<i16>> TABLE = {\"a\": [1, 2]}\n"},
 	},
 	{
+		name: "void method spelled `throws ()` gets its first exception", sig: "C18:missed-breaking:add-first-exception-to-void:empty-throws-clause", wantFail: true, root: "a.thrift",
+		old: map[string]string{"a.thrift": "exception Boom {\n  1: i32 code,\n}\nservice S {\n  void m() throws (),\n}\n"},
+		new: map[string]string{"a.thrift": "exception Boom {\n  1: i32 code,\n}\nservice S {\n  void m() throws (1: Boom b),\n}\n"},
+	},
+	{
+		name: "void method loses its only exception, empty clause kept", sig: "C18:missed-breaking:remove-all-exceptions-of-void:empty-throws-clause", wantFail: true, root: "a.thrift",
+		old: map[string]string{"a.thrift": "exception Boom {\n  1: i32 code,\n}\nservice S {\n  void m() throws (1: Boom b),\n}\n"},
+		new: map[string]string{"a.thrift": "exception Boom {\n  1: i32 code,\n}\nservice S {\n  void m() throws (),\n}\n"},
+	},
+	{
+		name: "`void m()` respelled `void m() throws ()` and back", sig: "C18:false-alarm:toggle-empty-throws:empty-throws-clause", wantFail: false, root: "a.thrift",
+		old: map[string]string{"a.thrift": "service S {\n  void m(),\n  void n() throws (),\n}\n"},
+		new: map[string]string{"a.thrift": "service S {\n  void m() throws (),\n  void n(),\n}\n"},
+	},
+	{
 		name: "last default field removed", sig: "C18:missed-breaking:remove-field", wantFail: true, root: "a.thrift",
 		old: map[string]string{"a.thrift": "struct S {\n  1: i32 a,\n  2: optional i32 b,\n  3: string c,\n}\n"},
 		new: map[string]string{"a.thrift": "struct S {\n  1: i32 a,\n  2: optional i32 b,\n}\n"},
